@@ -1,7 +1,10 @@
 import Rare.Model.C19
 /-!
-float64 instance of the C19 arithmetic, used ONLY by the drivers (correspondence); no theorem
-mentions `Float`.
+Native-`Float` instance of the C19 arithmetic, used ONLY by the drivers, and since the F64 round only
+as a CROSS-CHECK of the software binary64 instance (`Model/C19F64.lean`, which is what the driver
+reports and what the theorems are about): the C19 driver evaluates both and answers
+`model-vs-native …` when two definite answers differ.  No theorem mentions `Float`.  (The C08/C10
+drivers still use this instance for `{! …}` through the shared function table.)
 
 A value is `Option Float`: `none` = "tainted", the result went through an operation whose Go
 result is not determined by IEEE-754 exactness (`math.Sin`, `math.Pow` outside small integers …);
